@@ -4,6 +4,8 @@ import (
 	"encoding/json"
 	"fmt"
 	"math/big"
+	"runtime"
+	"time"
 
 	"github.com/xuperchain/xupercore/bcs/consensus/pow"
 	"github.com/xuperchain/xupercore/bcs/consensus/tdpos"
@@ -101,6 +103,46 @@ func probe(args []string) error {
 			fmt.Printf("pow height %d: miner's target bits %#x, CheckMinerMatch -> %s\n", h, s.TargetBits, checkClass(c, &ctx, b))
 			l.put(b)
 		}
+	}
+	// 4. pow, legacy targets (defaultTarget <= 256): expectedPeriod*(gap-1) < 4 and two blocks with one timestamp
+	{
+		l := newStubLedger(0)
+		ctx := newCtx(l, valKey(1))
+		conf := `{"defaultTarget":"10","adjustHeightGap":"2","expectedPeriod":"2","maxTarget":"12"}`
+		c := pow.NewPoWConsensus(ctx, consCfg("pow", conf))
+		for h := int64(1); h <= 4; h++ {
+			res := func() (r string) {
+				defer func() {
+					if e := recover(); e != nil {
+						r = fmt.Sprint("panic: ", e)
+					}
+				}()
+				_, st, err := c.ProcessBeforeMiner(0)
+				if err != nil {
+					return "error " + err.Error()
+				}
+				id := new(big.Int).Lsh(big.NewInt(1), 200)
+				id.Sub(id, big.NewInt(h))
+				l.put(&blk{Proposer: valKey(1).Address, Height: h, Blockid: id.FillBytes(make([]byte, 32)), Timestamp: 5e9, Storage: st, PreHash: l.tip().Blockid})
+				return "storage " + string(st)
+			}()
+			fmt.Printf("pow legacy gap 2 period 2, equal timestamps, height %d: ProcessBeforeMiner -> %s\n", h, res)
+		}
+	}
+	// 5. pow, legacy targets: a peer block declaring more than 256 target bits
+	if len(args) > 0 && args[0] == "-big" {
+		l := newStubLedger(0)
+		ctx := newCtx(l, valKey(1))
+		conf := `{"defaultTarget":"10","adjustHeightGap":"2","expectedPeriod":"15","maxTarget":"12"}`
+		c := pow.NewPoWConsensus(ctx, consCfg("pow", conf))
+		st, _ := json.Marshal(pow.PoWStorage{TargetBits: 300})
+		b := &blk{Proposer: valKey(1).Address, Height: 1, Blockid: []byte{1}, Timestamp: 5e9, Storage: st, PreHash: l.tip().Blockid}
+		var m0, m1 runtime.MemStats
+		runtime.ReadMemStats(&m0)
+		t0 := time.Now()
+		r := checkClass(c, &ctx, b)
+		runtime.ReadMemStats(&m1)
+		fmt.Printf("pow legacy, declared targetBits 300: CheckMinerMatch -> %s after %v, %d MiB allocated\n", r, time.Since(t0).Round(time.Millisecond), (m1.TotalAlloc-m0.TotalAlloc)>>20)
 	}
 	return nil
 }
